@@ -143,7 +143,12 @@ def classify(g, unit, diags):
             rlimit.append((f['qual'] if f else '?', msg))
             continue
         if d.get('code') or not any(k in msg for k in VERIF_MSGS):
-            hard.append(msg + ' @' + (('%s:%d' % (prim[0]['file_name'], prim[0]['line_start'])) if prim else '?'))
+            hf = None
+            for s_ in prim + spans:
+                hf = fn_at(g, s_['line_start'])
+                if hf:
+                    break
+            hard.append((msg + ' @' + (('%s:%d' % (prim[0]['file_name'], prim[0]['line_start'])) if prim else '?'), (hf.get('as_name') or hf['qual']) if hf else None))
             continue
         # which function?
         lines = [s['line_start'] for s in spans]
@@ -238,12 +243,34 @@ def classify(g, unit, diags):
 
 
 def run_unit(unit_path, gen_dir=None, rlimit=None, seed=None, reach=False):
+    """Verify one unit.  If Verus rejects the generated text because of individual extracted functions (a construct outside its
+    reach introduced by an edit), those functions are re-emitted as contract only and the unit is verified again: only the
+    properties that depend on the excluded functions become undecided, the rest of the unit still gets a verdict."""
+    excluded = []
+    res = None
+    hard_first = []
+    for _attempt in range(4):
+        res = _run_unit_once(unit_path, gen_dir, rlimit, seed, excluded)
+        hard_first += getattr(res, 'hard', [])
+        bad = [f for (_m, f) in getattr(res, 'hard', []) if f]
+        if res.status == 'undecided' and getattr(res, 'hard', None) and bad and all(f for (_m, f) in res.hard) and not set(bad) <= set(excluded):
+            excluded = sorted(set(excluded) | set(bad))
+            continue
+        break
+    res.excluded = excluded
+    res.hard_first = hard_first
+    if excluded and res.status != 'undecided':
+        res.excluded_reason = 'functions outside the verifier\'s reach in their current shape (contract assumed, properties depending on them undecided): ' + ', '.join(excluded)
+    return res
+
+
+def _run_unit_once(unit_path, gen_dir=None, rlimit=None, seed=None, exclude=()):
     unit = os.path.splitext(os.path.basename(unit_path))[0]
     res = UnitResult(unit)
     t0 = time.time()
     gen_dir = gen_dir or os.path.join(ROOT, 'gen')
     try:
-        g = Generator(unit_path).run()
+        g = Generator(unit_path, exclude).run()
     except LostAnchor as e:
         res.status, res.reason = 'undecided', 'lost anchor: %s' % e
         res.wall_s = time.time() - t0
@@ -257,7 +284,7 @@ def run_unit(unit_path, gen_dir=None, rlimit=None, seed=None, reach=False):
     res.fuzzy = g.fuzzy
     res.assumptions = scan_assumptions(text)
     res.fns = [dict(qual=f['qual'], emit_name=f['emit_name'], known=f['known'], props=f['props'], safety=f['safety'],
-                    src=f['src'], src_lines=f['src_lines'], mode=f['mode'],
+                    src=f['src'], src_lines=f['src_lines'], mode=f['mode'], excluded=f.get('excluded', False),
                     clauses=[dict(id=c.ident(unit), kind=c.kind, text=c.text, tags=c.tags or f['props'], known=c.known) for c, _a, _b, _k in f['clauses']])
                for f in g.fns]
     rl = rlimit or 20
@@ -272,6 +299,7 @@ def run_unit(unit_path, gen_dir=None, rlimit=None, seed=None, reach=False):
             out, failures, aux, hard, rlim = out2, f2, a2, h2, r2
             res.cmd = out['cmd']
     js = out['json']
+    res.hard = hard
     res.raw_errors = [d.get('rendered', d.get('message', '')) for d in out['diags'] if d.get('level') == 'error'][:40]
     if js is None:
         res.status, res.reason = 'undecided', 'verus produced no JSON: ' + out['stderr'][-2000:]
@@ -293,7 +321,7 @@ def run_unit(unit_path, gen_dir=None, rlimit=None, seed=None, reach=False):
     res.obligations = {k.split('::', 1)[1]: v for k, v in out['air'].items() if k.startswith(crate + '::')}
     if hard or vr.get('encountered-vir-error'):
         res.status = 'undecided'
-        res.reason = 'verus rejected the generated text (unsupported construct or type error): ' + '; '.join(hard[:5])
+        res.reason = 'verus rejected the generated text (unsupported construct or type error): ' + '; '.join(m for (m, _f) in hard[:5])
     elif rlim:
         res.status = 'undecided'
         res.reason = 'resource limit exceeded in: ' + ', '.join(sorted(set(r[0] for r in rlim)))
